@@ -101,7 +101,8 @@ func reconfMain(args []string) int {
 	options := []struct {
 		dirs []string
 		auto bool
-	}{{[]string{a, b}, true}, {[]string{a}, true}, {[]string{b, c}, true}, {[]string{a, b}, false}, {[]string{b}, true}, {[]string{a, c, b}, true}}
+	}{{[]string{a, b}, true}, {[]string{a}, true}, {[]string{b, c}, true}, {[]string{a, b}, false}, {[]string{b}, true}, {[]string{a, c, b}, true},
+		{[]string{}, true}, {[]string{c}, true}, {[]string{}, false}} // also: no directory at all, only a missing one
 	cache, _ := cdi.NewCache(cdi.WithSpecDirs(options[0].dirs...), cdi.WithAutoRefresh(true))
 	existing := func(ds []string) int {
 		k := 0
